@@ -6,6 +6,7 @@
 //!   replay <oracle> --case '<case>'         re-run one case
 mod terms;
 mod o_lists;
+mod o_unify;
 
 use std::panic;
 
@@ -15,6 +16,10 @@ pub type Enumerate = fn(u64) -> Vec<String>;
 fn oracles() -> Vec<(&'static str, Enumerate, Check)> {
     vec![
         ("c15_make_linked_list", o_lists::enum_mll, o_lists::check_mll),
+        ("c09_anon", o_unify::enum_anon, o_unify::check_anon),
+        ("c08_cycle", o_unify::enum_cycle, o_unify::check_cycle),
+        ("c13_function", o_unify::enum_function, o_unify::check_function),
+        ("c06_keeps", o_unify::enum_keeps, o_unify::check_keeps),
     ]
 }
 
